@@ -286,6 +286,81 @@ pub fn run(cfg: &Cfg, rep: &mut Report) {
     }
   }
 
+  // a subscriber whose handler panicked on one item inside a scheduled task (the scheduler
+  // catches the panic and the program goes on), later tasks still pending, then unsubscribe()
+  // (which may itself re-raise the stored panic: it is caught) or a guard drop: nothing more
+  if cfg.shard == 0 && cfg.only_case.as_deref().map_or(true, |c| c.starts_with("panicked-task:")) {
+    use rxrust::prelude::*;
+    use std::cell::RefCell;
+    use std::rc::Rc;
+    struct Picky(Rc<RefCell<Vec<String>>>);
+    impl Observer<V, E> for Picky {
+      fn next(&mut self, v: V) {
+        if v.int() == 13 {
+          panic!("the subscriber fails on an item");
+        }
+        self.0.borrow_mut().push(format!("next {}", v.int()));
+      }
+      fn error(self, e: E) {
+        self.0.borrow_mut().push(format!("error {}", e));
+      }
+      fn complete(self) {
+        self.0.borrow_mut().push("complete".into());
+      }
+      fn is_finished(&self) -> bool {
+        false
+      }
+    }
+    for op in 0..3 {
+      for guard in [false, true] {
+        for poison_first in [true, false] {
+          let id = format!("panicked-task:{}:{}:{}", op, guard, poison_first);
+          rep.evaluations += 1;
+          rep.count("cuts_after_a_scheduled_task_panicked", 1);
+          crate::vtime::reset();
+          let mut pool = futures::executor::LocalPool::new();
+          let log: Rc<RefCell<Vec<String>>> = Default::default();
+          let mut subj = Subject::<'static, V, E>::default();
+          let name = ["observe_on", "delay(0)", "delay(1ms)"][op];
+          let h: BoxSubscription<'static> = match op {
+            0 => BoxSubscription::new(subj.clone().observe_on(pool.spawner()).actual_subscribe(Picky(log.clone()))),
+            1 => BoxSubscription::new(subj.clone().delay(Duration::from_millis(0), pool.spawner()).actual_subscribe(Picky(log.clone()))),
+            _ => BoxSubscription::new(subj.clone().delay(Duration::from_millis(1), pool.spawner()).actual_subscribe(Picky(log.clone()))),
+          };
+          let drive = |pool: &mut futures::executor::LocalPool| {
+            pool.run_until_stalled();
+            crate::vtime::advance_to(crate::vtime::now() + 5_000_000);
+            pool.run_until_stalled();
+          };
+          if !poison_first {
+            subj.next(V::I(1));
+          }
+          subj.next(V::I(13));
+          drive(&mut pool); // the task of item 13 ran and panicked inside the scheduler's catch
+          subj.next(V::I(2));
+          subj.next(V::I(3));
+          subj.clone().complete();
+          let before = log.borrow().len();
+          let _ = std::panic::catch_unwind(std::panic::AssertUnwindSafe(move || {
+            if guard {
+              drop(h.unsubscribe_when_dropped());
+            } else {
+              h.unsubscribe();
+            }
+          }));
+          drive(&mut pool);
+          let after: Vec<String> = log.borrow()[before..].to_vec();
+          rep.events += log.borrow().len() as u64 + 1;
+          if !after.is_empty() {
+            rep.violation("delivery_after_unsubscribe", &format!("{}[a task of this subscription had panicked]", name), &id, json!({"delivered_after_unsubscribe": after, "via": if guard { "guard drop" } else { "unsubscribe()" }}));
+          } else {
+            rep.nontrivial.insert(hash64(&id));
+          }
+        }
+      }
+    }
+  }
+
   // thread part: an emitting thread races the unsubscribing thread (baton scheduler)
   let n = cfg.n(12_000, 600_000);
   let fams = [0usize, 2, 3, 4, 5, 6, 7, 8, 9, 11, 12, 13, 15, 16, 17, 18, 20, 23, 24, 25];
